@@ -237,18 +237,23 @@ CLAIMS = {
         technique="Rocq/Coq proof over R (Flocq rounding lemmas, ln/exp) + statement-equality translator + interval-tactic correspondence",
     ),
     "C02": dict(
-        category="translation_validation",
-        text="Translation validation with a VERIFIED validator: the emitted text of every sampled conv2d/conv3d/pool/flatten/dense stack "
-             "(systematic geometries: rectangular, padding 0..2, stride = rf, pooling with padding and overhanging windows, 3-D incl. "
-             "non-cubic receptive fields, mixed stacks with 3-4 dense layers, Walsh; plus random stacks) is parsed and checked in the Coq "
-             "kernel against the reference circuit Model/ConvNet.eval_net on ALL Boolean inputs; the checker is proved sound (Coq theorem "
-             "C02_validator_sound: success implies memory safety and lane-wise equality for every input and every word size) and composed "
-             "with the proved wrapper/host (C02_counts). The forall-program statement is proved for dense stacks (C01) but not yet for "
-             "the conv/pool emitters, hence this level. Real libraries (gcc -O0..3, four word sizes) are compared with eval-mode PyTorch.",
+        category="proof",
+        text="Coq theorem for EVERY well-formed stack Conv (Conv|Pool)* [Flatten Dense*] (2-D and 3-D; any channels, image sizes, "
+             "receptive fields, strides, paddings, tree depths incl. 0, wirings, gates, pooling geometry), every word size and every "
+             "input: the Gallina generator model gen_net produces a program whose execution in the modelled C fragment succeeds (no "
+             "out-of-bounds access, no read before write) and equals the reference circuit (zero padding, shared kernel trees, OR "
+             "pooling, dense layers) in every bit lane (C02_logic_net; induction over tree levels, grid cells, layers); composed with "
+             "the proved wrapper and host it gives the per-class counts for every batch size (C02_net_counts) and the 0/1 outputs "
+             "without GroupSum (C02_net_direct). gen_net is tied to get_c_code() on every run by parsing the emitted text of every "
+             "sampled stack (systematic geometries + random) and checking syntactic equality with gen_net(architecture) and "
+             "well-formedness inside the Coq kernel. Independently, a VERIFIED validator (C02_validator_sound) checks each parsed "
+             "program against the reference circuit on all Boolean inputs, and real libraries (gcc -O0..3, four word sizes) are "
+             "compared with eval-mode PyTorch.",
         design_ref="DESIGN.md section 6 C02",
-        note="Coq kernel (closed theorems) for the validator soundness; per-program kernel computation for input size <= 9/12; strict C "
-             "parser; compilers; PyTorch eval = reference circuit compared exactly, not proved.",
-        technique="Rocq/Coq-verified validator (lane-parallelism + exhaustive Boolean execution, proved sound) run on parsed emitted C + differential runs",
+        note="Coq kernel (theorems closed under the global context); hand-written generator model checked by text equality per sampled "
+             "model; strict C parser; compilers; PyTorch eval = reference circuit compared exactly, not proved.",
+        technique="Rocq/Coq proof (induction over tree levels / cells / layers of a generator model; lane-parallelism) + text-equality, "
+                  "verified-validator and differential correspondence",
     ),
 }
 
